@@ -53,10 +53,10 @@ def resizeFile (B : Nat) (diff : Int) : FileM Unit := do
       if err = .enospc then ftruncate filesize
       raise err)
 
-/-- one chunk of move_bytes: seek src; read; seek dest; write -/
+/-- one chunk of move_bytes: seek src; read_full; seek dest; write -/
 def moveStep (a b n : Nat) : FileM Unit := do
   fseek a
-  let buf ← fread n
+  let buf ← readFull n
   fseek b
   fwrite buf
 
